@@ -240,6 +240,23 @@ func Scenario(c Cfg) {
 			env.Log("in-closed")
 		}()
 		consume("got", pipe.Fold(ctx, in, m), c.Stop, 0, cancel, c.Late, c.LateAt)
+	case "seqtake":
+		// Take over Seq: the first n of K arguments; whatever Seq does with a long argument list, nothing of the library
+		// may be left running once the consumer has its values and the context is cancelled
+		xs := make([]int, c.K)
+		for i := range xs {
+			xs[i] = i + 1
+		}
+		out := pipe.Take(ctx, pipe.Seq(xs...), c.N)
+		env.WatchClosed("got", out)
+		go func() {
+			for x := range out {
+				env.Log("got", x)
+			}
+			env.Log("got-eof")
+			env.Log("cancel")
+			cancel()
+		}()
 	case "fold100":
 		// an "empty" element that is not neutral: the statement says the fold starts from the monoid's empty element
 		m := monoid.FromOp(100, func(a, b int) int { return a*2 + b })
